@@ -2439,6 +2439,28 @@ impl<'a, C: Crypto> TransportRunner<'a, C> {
     }
 }
 
+/// Verification hooks (feature `verif`): occupancy of the single-slot resources of the transport.
+#[cfg(feature = "verif")]
+impl Transport {
+    /// `(RX slot free, TX slot free)`: the packet slot is empty and nobody holds it.
+    pub fn verif_slots_free(&self) -> (bool, bool) {
+        (
+            self.rx.try_lock_if(|packet| packet.buf.is_empty()).is_ok(),
+            self.tx.try_lock_if(|packet| packet.buf.is_empty()).is_ok(),
+        )
+    }
+
+    /// `(mDNS resolve rendezvous idle, mDNS browse rendezvous idle)`
+    pub fn verif_mdns_rendezvous_idle(&self) -> (bool, bool) {
+        (
+            self.mdns_resolve
+                .modify(|state| (false, matches!(state, MdnsResolveState::Idle))),
+            self.mdns_browse
+                .modify(|state| (false, matches!(state, MdnsBrowseState::Idle))),
+        )
+    }
+}
+
 /// Verification hooks (feature `verif`): run the synchronous sweep steps of the transport on a
 /// stand-in for the RX / TX packet slot.
 #[cfg(feature = "verif")]
